@@ -454,8 +454,12 @@ def unorder (cut : Cut) (m : M3 Int) : IV × IV × IV :=
   | .b => (m.r2, m.r0, m.r1)
   | .a => (m.r1, m.r2, m.r0)
 
-def validBasis (vects : M3 Rat) (hkl : IV) (L : M3 Int) (cut : Cut) (nOpt : Option Int)
-    (uvws : M3 Int) (tol : Rat) : String :=
+section
+variable {K : Type} [Add K] [Sub K] [Mul K] [Zero K] [IntCast K] [LT K] [DecidableLT K] [DecidableEq K]
+
+/-- `tol = tn / td` (relative, on squared lengths and squared cosines). -/
+def validBasis (vects : M3 K) (hkl : IV) (L : M3 Int) (cut : Cut) (nOpt : Option Int)
+    (uvws : M3 Int) (tn td : Int) : String :=
   match initVectors hkl with
   | none => "0 hkl-zero"
   | some ini =>
@@ -468,19 +472,24 @@ def validBasis (vects : M3 Rat) (hkl : IV) (L : M3 Int) (cut : Cut) (nOpt : Opti
     let m2 := fun v => V3.normSq (cart vects v)
     let dn := fun v => V3.dot (cart vects v) pn
     let bound := m2 ⟨n, n, n⟩
+    let up : K := ((td + tn : Int) : K)
+    let dnn : K := ((td - tn : Int) : K)
+    let one : K := ((td : Int) : K)
     if !(inRange n a && decide (inPlane vects pn a)) then "0 a-not-a-candidate-in-plane"
     else if !(decide (m2 a < bound)) then "0 a-not-below-initial-bound"
-    else if cands.any (fun v => decide (inPlane vects pn v) && decide (m2 v * (1 + tol) < m2 a)) then "0 a-not-shortest"
+    else if cands.any (fun v => decide (inPlane vects pn v) && decide (m2 v * up < m2 a * one)) then "0 a-not-shortest"
     else if gcd3 c ≠ 1 then "0 c-not-reduced"
     else if !(cands.any (fun v => decide (towardNormal vects pn v) && reduceGcd v == c)) then "0 c-not-from-candidate"
     else if cands.any (fun v => decide (towardNormal vects pn v) &&
-        decide (dn c * dn c * m2 v < dn v * dn v * m2 c * (1 - tol))) then "0 c-not-closest-to-normal"
+        decide (dn c * dn c * m2 v * one < dn v * dn v * m2 c * dnn)) then "0 c-not-closest-to-normal"
     else
       let aC := cart vects a
       if !(inRange n b && decide (bFilter vects pn aC b)) then "0 b-fails-filter"
-      else if !(decide (m2 b < bound * (1 + tol))) then "0 b-not-below-initial-bound"
-      else if cands.any (fun v => decide (bFilter vects pn aC v) && decide (m2 v * (1 + tol) < m2 b)) then "0 b-not-shortest"
+      else if !(decide (m2 b * one < bound * up)) then "0 b-not-below-initial-bound"
+      else if cands.any (fun v => decide (bFilter vects pn aC v) && decide (m2 v * up < m2 b * one)) then "0 b-not-shortest"
       else "1"
+
+end
 
 end Rel
 
